@@ -60,7 +60,7 @@ def run_one(rng, counters):
         cover = rng.choice(["full", "full", "partial"])
         truth, blocks = genome.truth_phased_doc(sim, rng, tag="PS", block_len=(1000, 1000) if linked else (3, 10))
         hostile = rng.random() < 0.3
-        n_multi = n_dup = 0
+        n_multi = n_dup = n_missing = 0
         if hostile:
             # (a) SNV records turned multi-allelic: an unused first ALT is added, the carried ALT becomes allele 2 (0|1 -> 0|2);
             # (b) a second record at the position of a variant (as from splitting a multi-allelic site), heterozygous and phased
@@ -87,6 +87,14 @@ def run_one(rng, counters):
                                 "fmt": list(r["fmt"]), "calls": calls, "kind": "dup"})
                     n_dup += 1
             truth.records = new
+            # (c) a sample without genotype at a site its reads cover
+            for r in truth.records:
+                if r.get("kind") == "snv" and rng.random() < 0.08:
+                    k_ = rng.randrange(len(r["calls"]))
+                    r["calls"][k_]["GT"] = "./."
+                    if "PS" in r["calls"][k_]:
+                        r["calls"][k_]["PS"] = "."
+                    n_missing += 1
         tvcf = os.path.join(tmp, "truth.vcf.gz")
         truth.write(tvcf, compress=True)
         # reads confined to one phase set (per sample): drop reads whose span covers het variants of two blocks
@@ -129,7 +137,7 @@ def run_one(rng, counters):
         src.close()
         pysam.index(fbam)
         only_indels = rng.random() < 0.25 and p["kinds"] != ["snv"]
-        desc = {"params": p, "cover": cover, "linked": linked, "only_indels": only_indels, "multiallelic_records": n_multi, "duplicate_position_records": n_dup}
+        desc = {"params": p, "cover": cover, "linked": linked, "only_indels": only_indels, "multiallelic_records": n_multi, "duplicate_position_records": n_dup, "missing_genotypes": n_missing}
         if n_kept == 0:
             return [], False, desc
         tagged = os.path.join(tmp, "tagged.bam")
@@ -181,6 +189,10 @@ def run_one(rng, counters):
             run_haplotagphase(variant_file=ivcf, alignment_file=tagged, output=out, reference=sim.fasta, write_command_line_header=False, only_indels=only_indels)
         except Exception:
             tb = traceback.format_exc()
+            if "EmptyAlignmentFileError" in tb:
+                # nothing was left of the BAM after tagging a region: whatshap refuses an empty alignment file (documented)
+                counters["skipped_empty_tagged_bam"] = counters.get("skipped_empty_tagged_bam", 0) + 1
+                return [], False, desc
             return [{"mech": "crash:" + tb.strip().splitlines()[-1].split(":")[0], "msg": "run_haplotagphase raised: " + tb[-1500:]}], False, desc
         counters["runs_ok"] = counters.get("runs_ok", 0) + 1
         if retag:
